@@ -3,11 +3,12 @@
 //@ kind W
 //@ def all NCH=2
 //@ def quick CMSTATE_BITFIELD_CHUNK=128 CMSTATE_BITFIELD_INT32_SIZE=(128/32)
-//@ note quick tier: the chunk size of the dynamic representation (CMSTATE_BITFIELD_CHUNK = 1024 bits, CMSTATE_BITFIELD_INT32_SIZE = 32 words in /repo; the header requires a multiple of 128) is rebound to 128 bits / 4 words by -D (the copied #defines are #ifndef-guarded); the code is parametric in it; the thorough tier uses the real 1024
+//@ def thorough CMSTATE_BITFIELD_CHUNK=256 CMSTATE_BITFIELD_INT32_SIZE=(256/32)
+//@ note quick tier: the chunk size of the dynamic representation (CMSTATE_BITFIELD_CHUNK = 1024 bits, CMSTATE_BITFIELD_INT32_SIZE = 32 words in /repo; the header requires a multiple of 128) is rebound to 128 bits / 4 words by -D (the copied #defines are #ifndef-guarded); the code is parametric in it; the thorough tier uses 256 bits / 8 words (the real 1024-bit chunk with 2 chunks does not finish within 1800 s: probed)
 //@ cbmc quick --unwind 6 --unwinding-assertions
-//@ cbmc thorough --unwind 34 --unwinding-assertions
+//@ cbmc thorough --unwind 10 --unwinding-assertions
 //@ entry h_cm_stateset
-//@ note W: complete for every set in the cached representation (1..128 bits, every content of the 4 words) and every set in the dynamic representation with up to NCH = 2 chunks (129..2048 bits, each chunk absent or present with any content); every bit index (also out of range); loops fully unwound (4 words, NCH chunks x 32 words), unwinding assertions on
+//@ note W: complete for every set in the cached representation (1..128 bits, every content of the 4 words) and every set in the dynamic representation with up to NCH = 2 chunks (129..NCH*chunk bits, each chunk absent or present with any content); every bit index (also out of range); loops fully unwound (4 words, NCH chunks x 32 words), unwinding assertions on
 //@ note the non-SSE2 paths are verified (XERCES_HAVE_SSE2_INTRINSIC undefined: the #ifdef blocks inside the bodies are removed by the C preprocessor); the SSE2 paths use compiler intrinsics and are outside the subset
 //@ note stubs (trusted): fMemoryManager->allocate for a chunk = a fresh 32-word array from a harness pool (never fails), deallocate = no-op; abstraction function SPEC_BIT = the representation as described in CMStateSet.hpp (word g/32, bit g%32; dynamic: chunk g/1024, absent chunk = all zero)
 #define VERIF_DEFINE_GHOSTS
